@@ -14,44 +14,68 @@ Definition alloc_ok (a sn bl : Z) : Prop := a <= 65535 \/ a <= Z.max sn bl.
 Definition disc_ok (k n n' : Z) : Prop :=
   (k <= 0 /\ n' = n) \/ (0 < k /\ k <= n /\ n' = n - k).
 
-Fixpoint wp {A} (p : io (rst * outcome A)) (n : Z) (Q : A -> rst -> Z -> Prop) : Prop :=
-  match p with
-  | Ret r => match snd r with Ok a => Q a (fst r) n | Err c => 0 < c < 9 | Panic _ => False end
-  | Rd k cont => (forall bs n', rd_ok k n bs n' -> wp (cont bs RsOk) n' Q)
-                 /\ (forall bs st, st <> RsOk -> wp (cont bs st) 0 Q)
-  | Disc k cont => (forall n', disc_ok k n n' -> wp (cont RsOk) n' Q)
-                   /\ (forall st, st <> RsOk -> wp (cont st) 0 Q)
-  | Until0 cont => (forall bs n', 0 < zlen bs -> zlen bs <= n -> n' = n - zlen bs -> wp (cont bs RsOk) n' Q)
-                   /\ (forall bs st, st <> RsOk -> wp (cont bs st) 0 Q)
-  | Peek2 cont => forall bs st, wp (cont bs st) n Q
-  | Alloc a sn bl k => alloc_ok a sn bl /\ wp k n Q
-  end.
+(* the class of an error result, given how the last stream operation ended (e): unless the stream
+   ended (RsEOF) the class is 3 (an error) or 7 (gzip): io.EOF / io.ErrUnexpectedEOF are reported
+   only when the stream really ended, in particular never after a read error (RsFail) *)
+Definition errcls (e : rstat) (c : Z) : Prop := match e with RsEOF => 0 < c < 9 | _ => c = 3 \/ c = 7 end.
+Definition upd_e (e st : rstat) : rstat := match st with RsOk => e | _ => st end.
 
-Lemma wp_mono {A} (p : io (rst * outcome A)) : forall n (Q Q' : A -> rst -> Z -> Prop),
-  (forall a s n', Q a s n' -> Q' a s n') -> wp p n Q -> wp p n Q'.
+Fixpoint wpe {A} (p : io (rst * outcome A)) (e : rstat) (n : Z) (Q : A -> rst -> Z -> Prop) : Prop :=
+  match p with
+  | Ret r => match snd r with Ok a => Q a (fst r) n | Err c => errcls e c | Panic _ => False end
+  | Rd k cont => (forall bs n', rd_ok k n bs n' -> wpe (cont bs RsOk) e n' Q)
+                 /\ (forall bs st, st <> RsOk -> wpe (cont bs st) st 0 (fun _ _ _ => False))
+  | Disc k cont => (forall n', disc_ok k n n' -> wpe (cont RsOk) e n' Q)
+                   /\ (forall st, st <> RsOk -> wpe (cont st) st 0 (fun _ _ _ => False))
+  | Until0 cont => (forall bs n', 0 < zlen bs -> zlen bs <= n -> n' = n - zlen bs -> wpe (cont bs RsOk) e n' Q)
+                   /\ (forall bs st, st <> RsOk -> wpe (cont bs st) st 0 (fun _ _ _ => False))
+  | Peek2 cont => (forall bs, wpe (cont bs RsOk) e n Q)
+                  /\ (forall bs st, st <> RsOk -> wpe (cont bs st) st n (fun _ _ _ => False))
+  | Alloc a sn bl k => alloc_ok a sn bl /\ wpe k e n Q
+  end.
+Notation wp p n Q := (wpe p RsOk n Q).
+
+Lemma wpe_mono {A} (p : io (rst * outcome A)) : forall e n (Q Q' : A -> rst -> Z -> Prop),
+  (forall a s n', Q a s n' -> Q' a s n') -> wpe p e n Q -> wpe p e n Q'.
 Proof.
-  induction p as [r|k cont IH|k cont IH|cont IH|cont IH|a sn bl k IH]; intros n Q Q' HQ; cbn [wp].
+  induction p as [r|k cont IH|k cont IH|cont IH|cont IH|a sn bl k IH]; intros e n Q Q' HQ; cbn [wpe].
   - destruct (snd r); auto.
-  - intros [H1 H2]; split; intros; eapply IH; eauto.
-  - intros [H1 H2]; split; intros; eapply IH; eauto.
-  - intros [H1 H2]; split; intros; eapply IH; eauto.
-  - intros H bs st. eapply IH; eauto.
+  - intros [H1 H2]; split; intros; [eapply IH; eauto|auto].
+  - intros [H1 H2]; split; intros; [eapply IH; eauto|auto].
+  - intros [H1 H2]; split; intros; [eapply IH; eauto|auto].
+  - intros [H1 H2]; split; intros; [eapply IH; eauto|auto].
   - intros [Ha H]. split; [exact Ha|]. eapply IH; eauto.
 Qed.
+Lemma wp_mono {A} (p : io (rst * outcome A)) n (Q Q' : A -> rst -> Z -> Prop) :
+  (forall a s n', Q a s n' -> Q' a s n') -> wp p n Q -> wp p n Q'.
+Proof. apply wpe_mono. Qed.
 
-Lemma wp_iobind {A B} (p : io (rst * outcome A)) (f : A -> SM B) : forall n Q,
-  wp p n (fun a s' n' => wp (f a s') n' Q) ->
-  wp (iobind p (fun r => match snd r with
+Lemma wpe_false_bind {A B} (p : io (rst * outcome A)) (g : rst * outcome A -> io (rst * outcome B)) :
+  (forall s c, g (s, Err c) = Ret (s, Err c)) -> (forall s q, g (s, Panic q) = Ret (s, Panic q)) ->
+  forall e n Q, wpe p e n (fun _ _ _ => False) -> wpe (iobind p g) e n Q.
+Proof.
+  intros G1 G2. induction p as [r|k cont IH|k cont IH|cont IH|cont IH|a sn bl k IH]; intros e n Q; cbn [wpe iobind].
+  - destruct r as [s o]; cbn [fst snd]. destruct o; [contradiction|rewrite G1; cbn; auto|contradiction].
+  - intros [H1 H2]; split; intros; apply IH; auto.
+  - intros [H1 H2]; split; intros; apply IH; auto.
+  - intros [H1 H2]; split; intros; apply IH; auto.
+  - intros [H1 H2]; split; intros; apply IH; auto.
+  - intros [Ha H]. split; [exact Ha|]. apply IH; auto.
+Qed.
+
+Lemma wp_iobind {A B} (p : io (rst * outcome A)) (f : A -> SM B) : forall e n Q,
+  wpe p e n (fun a s' n' => wpe (f a s') e n' Q) ->
+  wpe (iobind p (fun r => match snd r with
                           | Ok a => f a (fst r)
                           | Err c => Ret (fst r, Err c)
-                          | Panic q => Ret (fst r, Panic q) end)) n Q.
+                          | Panic q => Ret (fst r, Panic q) end)) e n Q.
 Proof.
-  induction p as [r|k cont IH|k cont IH|cont IH|cont IH|a sn bl k IH]; intros n Q; cbn [wp iobind].
-  - destruct r as [s o]; cbn [fst snd]. destruct o; cbn [wp fst snd]; auto.
-  - intros [H1 H2]; split; intros; apply IH; auto.
-  - intros [H1 H2]; split; intros; apply IH; auto.
-  - intros [H1 H2]; split; intros; apply IH; auto.
-  - intros H bs st. apply IH; auto.
+  induction p as [r|k cont IH|k cont IH|cont IH|cont IH|a sn bl k IH]; intros e n Q; cbn [wpe iobind].
+  - destruct r as [s o]; cbn [fst snd]. destruct o; cbn [wpe fst snd]; auto.
+  - intros [H1 H2]; split; intros; [apply IH; auto|apply wpe_false_bind; auto].
+  - intros [H1 H2]; split; intros; [apply IH; auto|apply wpe_false_bind; auto].
+  - intros [H1 H2]; split; intros; [apply IH; auto|apply wpe_false_bind; auto].
+  - intros [H1 H2]; split; intros; [apply IH; auto|apply wpe_false_bind; auto].
   - intros [Ha H]. split; [exact Ha|]. apply IH; auto.
 Qed.
 
@@ -123,13 +147,16 @@ Definition allocs_ok (fs : fstream) : Prop :=
 Lemma sok_nil fs : flen fs = 0 -> fdata fs = [] -> sok fs.
 Proof. intros H1 H2. unfold sok. rewrite H1, H2. split; [reflexivity|constructor]. Qed.
 
-Definition res_ok {A} (Q : A -> rst -> Z -> Prop) (r : (rst * outcome A) * fstream) : Prop :=
-  allocs_ok (snd r) /\
+Definition res_ok {A} (b : bool) (Q : A -> rst -> Z -> Prop) (r : (rst * outcome A) * fstream) : Prop :=
+  allocs_ok (snd r) /\ ffail (snd r) = b /\
   match snd (fst r) with
   | Ok a => Q a (fst (fst r)) (flen (snd r)) /\ sok (snd r)
-  | Err c => 0 < c < 9
+  | Err c => (c = 3 \/ c = 7) \/ (b = false /\ 0 < c < 9)
   | Panic _ => False
   end.
+
+Lemma res_ok_false {A} b (Q : A -> rst -> Z -> Prop) r : res_ok b (fun _ _ _ => False) r -> res_ok b Q r.
+Proof. unfold res_ok. intros (H1 & H2 & H3). repeat split; auto. destruct (snd (fst r)); tauto. Qed.
 
 Lemma f_read_allocs k fs : fallocs (snd (fst (f_read k fs))) = fallocs fs.
 Proof. unfold f_read. destruct (k <=? 0); [reflexivity|]. destruct (k <=? flen fs); reflexivity. Qed.
@@ -138,40 +165,74 @@ Proof. unfold f_disc. destruct (k <=? 0); [reflexivity|]. destruct (k <=? flen f
 Lemma f_until0_allocs fs : fallocs (snd (fst (f_until0 fs))) = fallocs fs.
 Proof. unfold f_until0. destruct (split0 (fdata fs)) as [[a r]|]; reflexivity. Qed.
 
-Theorem wp_sound {A} (p : io (rst * outcome A)) : forall fs Q,
-  sok fs -> allocs_ok fs -> wp p (flen fs) Q -> res_ok Q (run_f p fs).
+Lemma f_read_st k fs : ffail (snd (fst (f_read k fs))) = ffail fs /\ (snd (f_read k fs) = RsOk \/ snd (f_read k fs) = fend fs).
+Proof. unfold f_read. destruct (k <=? 0); [cbn; auto|]. destruct (k <=? flen fs); cbn; auto. Qed.
+Lemma f_disc_st k fs : ffail (fst (f_disc k fs)) = ffail fs /\ (snd (f_disc k fs) = RsOk \/ snd (f_disc k fs) = fend fs).
+Proof. unfold f_disc. destruct (k <=? 0); [cbn; auto|]. destruct (k <=? flen fs); cbn; auto. Qed.
+Lemma f_until0_st fs : ffail (snd (fst (f_until0 fs))) = ffail fs /\ (snd (f_until0 fs) = RsOk \/ snd (f_until0 fs) = fend fs).
+Proof. unfold f_until0. destruct (split0 (fdata fs)) as [[a r]|]; cbn; auto. Qed.
+Lemma f_peek2_st fs : snd (f_peek2 fs) = RsOk \/ snd (f_peek2 fs) = fend fs.
+Proof. unfold f_peek2. destruct (2 <=? flen fs); cbn; auto. Qed.
+
+Lemma fend_same fs fs' : ffail fs' = ffail fs -> fend fs' = fend fs.
+Proof. unfold fend. intros ->. reflexivity. Qed.
+
+Theorem wpe_sound {A} (p : io (rst * outcome A)) : forall fs e Q,
+  sok fs -> allocs_ok fs -> (e = RsOk \/ e = fend fs) -> wpe p e (flen fs) Q -> res_ok (ffail fs) Q (run_f p fs).
 Proof.
-  induction p as [r|k cont IH|k cont IH|cont IH|cont IH|a sn bl k IH]; intros fs Q Hl Ha; cbn [wp run_f].
-  - unfold res_ok; cbn [fst snd]. destruct (snd r); auto.
-  - intros [H1 H2]. pose proof (f_read_ok k fs Hl) as R. pose proof (f_read_allocs k fs) as RA.
-    destruct (f_read k fs) as [[bs fs'] st]. cbn [fst snd] in RA.
+  induction p as [r|k cont IH|k cont IH|cont IH|cont IH|a sn bl k IH]; intros fs e Q Hl Ha He; cbn [wpe run_f].
+  - unfold res_ok; cbn [fst snd]. intros H. split; [exact Ha|]. split; [reflexivity|].
+    destruct (snd r); auto. unfold errcls, fend in *. destruct He as [->| ->]; [auto|]. destruct (ffail fs); auto.
+  - intros [H1 H2]. pose proof (f_read_ok k fs Hl) as R. pose proof (f_read_allocs k fs) as RA. pose proof (f_read_st k fs) as (RF & RS).
+    destruct (f_read k fs) as [[bs fs'] st]. cbn [fst snd] in RA, RF, RS.
     assert (allocs_ok fs') as Ha' by (unfold allocs_ok; rewrite RA; exact Ha).
-    destruct st.
-    + destruct R as [R1 R2]. apply IH; auto.
-    + destruct R as [R1 R2]. apply IH; [apply sok_nil; auto|auto|]. rewrite R1. apply H2. discriminate.
-    + destruct R as [R1 R2]. apply IH; [apply sok_nil; auto|auto|]. rewrite R1. apply H2. discriminate.
-  - intros [H1 H2]. pose proof (f_disc_ok k fs Hl) as R. pose proof (f_disc_allocs k fs) as RA.
-    destruct (f_disc k fs) as [fs' st]. cbn [fst snd] in RA.
+    rewrite <- RF. destruct st.
+    + destruct R as [R1 R2]. apply IH with (e := e); auto. rewrite (fend_same _ _ RF). exact He.
+    + destruct R as [R1 R2]. apply res_ok_false. apply IH with (e := RsEOF); [apply sok_nil; auto|auto| |].
+      { right. rewrite (fend_same _ _ RF). destruct RS; [discriminate|auto]. }
+      rewrite R1. apply H2. discriminate.
+    + destruct R as [R1 R2]. apply res_ok_false. apply IH with (e := RsFail); [apply sok_nil; auto|auto| |].
+      { right. rewrite (fend_same _ _ RF). destruct RS; [discriminate|auto]. }
+      rewrite R1. apply H2. discriminate.
+  - intros [H1 H2]. pose proof (f_disc_ok k fs Hl) as R. pose proof (f_disc_allocs k fs) as RA. pose proof (f_disc_st k fs) as (RF & RS).
+    destruct (f_disc k fs) as [fs' st]. cbn [fst snd] in RA, RF, RS.
     assert (allocs_ok fs') as Ha' by (unfold allocs_ok; rewrite RA; exact Ha).
-    destruct st.
-    + destruct R as [R1 R2]. apply IH; auto.
-    + destruct R as [R1 R2]. apply IH; [apply sok_nil; auto|auto|]. rewrite R1. apply H2. discriminate.
-    + destruct R as [R1 R2]. apply IH; [apply sok_nil; auto|auto|]. rewrite R1. apply H2. discriminate.
-  - intros [H1 H2]. pose proof (f_until0_ok fs Hl) as R. pose proof (f_until0_allocs fs) as RA.
-    destruct (f_until0 fs) as [[bs fs'] st]. cbn [fst snd] in RA.
+    rewrite <- RF. destruct st.
+    + destruct R as [R1 R2]. apply IH with (e := e); auto. rewrite (fend_same _ _ RF). exact He.
+    + destruct R as [R1 R2]. apply res_ok_false. apply IH with (e := RsEOF); [apply sok_nil; auto|auto| |].
+      { right. rewrite (fend_same _ _ RF). destruct RS; [discriminate|auto]. }
+      rewrite R1. apply H2. discriminate.
+    + destruct R as [R1 R2]. apply res_ok_false. apply IH with (e := RsFail); [apply sok_nil; auto|auto| |].
+      { right. rewrite (fend_same _ _ RF). destruct RS; [discriminate|auto]. }
+      rewrite R1. apply H2. discriminate.
+  - intros [H1 H2]. pose proof (f_until0_ok fs Hl) as R. pose proof (f_until0_allocs fs) as RA. pose proof (f_until0_st fs) as (RF & RS).
+    destruct (f_until0 fs) as [[bs fs'] st]. cbn [fst snd] in RA, RF, RS.
     assert (allocs_ok fs') as Ha' by (unfold allocs_ok; rewrite RA; exact Ha).
-    destruct st.
-    + destruct R as (R1 & R2 & R3 & R4). apply IH; auto.
-    + destruct R as [R1 R2]. apply IH; [apply sok_nil; auto|auto|]. rewrite R1. apply H2. discriminate.
-    + destruct R as [R1 R2]. apply IH; [apply sok_nil; auto|auto|]. rewrite R1. apply H2. discriminate.
-  - intros H. destruct (f_peek2 fs) as [bs st]. apply IH; auto.
-  - intros [Hk H]. apply IH; auto.
+    rewrite <- RF. destruct st.
+    + destruct R as (R1 & R2 & R3 & R4). apply IH with (e := e); auto. rewrite (fend_same _ _ RF). exact He.
+    + destruct R as [R1 R2]. apply res_ok_false. apply IH with (e := RsEOF); [apply sok_nil; auto|auto| |].
+      { right. rewrite (fend_same _ _ RF). destruct RS; [discriminate|auto]. }
+      rewrite R1. apply H2. discriminate.
+    + destruct R as [R1 R2]. apply res_ok_false. apply IH with (e := RsFail); [apply sok_nil; auto|auto| |].
+      { right. rewrite (fend_same _ _ RF). destruct RS; [discriminate|auto]. }
+      rewrite R1. apply H2. discriminate.
+  - intros [H1 H2]. pose proof (f_peek2_st fs) as RS. destruct (f_peek2 fs) as [bs st]. cbn [snd] in RS. destruct st.
+    + apply IH with (e := e); auto.
+    + apply res_ok_false. apply IH with (e := RsEOF); [exact Hl|exact Ha|right; destruct RS as [RS|RS]; [discriminate|exact RS]|apply H2; discriminate].
+    + apply res_ok_false. apply IH with (e := RsFail); [exact Hl|exact Ha|right; destruct RS as [RS|RS]; [discriminate|exact RS]|apply H2; discriminate].
+  - intros [Hk H]. 
+    change (ffail fs) with (ffail (mkF (fdata fs) (flen fs) (ffail fs) ((a, sn, bl, flen fs) :: fallocs fs))).
+    apply IH with (e := e); auto.
     unfold allocs_ok; cbn [fallocs]. constructor; [cbn [fst snd]; exact Hk|exact Ha].
 Qed.
 
+Theorem wp_sound {A} (p : io (rst * outcome A)) fs Q :
+  sok fs -> allocs_ok fs -> wp p (flen fs) Q -> res_ok (ffail fs) Q (run_f p fs).
+Proof. intros H1 H2 H3. apply wpe_sound with (e := RsOk); auto. Qed.
+
 (* ---------------------------------------------------------------- primitives *)
-Lemma err_of_ne9 st : 0 < err_of st < 9.
-Proof. destruct st; cbn; lia. Qed.
+Lemma err_of_cls st : st <> RsOk -> errcls st (err_of st).
+Proof. destruct st; cbn; [congruence|lia|lia]. Qed.
 
 Lemma wp_s_rd k s n (Q : list Z -> rst -> Z -> Prop) :
   (forall bs n', rd_ok k n bs n' -> Q bs s n') -> wp (s_rd k s) n Q.
@@ -194,7 +255,7 @@ Lemma wp_s_alloc a sn s n (Q : unit -> rst -> Z -> Prop) :
 Proof. intros H1 H2. unfold s_alloc; cbn [wp]. split; [exact H1|]. cbn. exact H2. Qed.
 
 Lemma wp_slift {A} (o : outcome A) s n (Q : A -> rst -> Z -> Prop) :
-  (forall a, o = Ok a -> Q a s n) -> (forall c, o = Err c -> 0 < c < 9) -> (forall q, o <> Panic q) ->
+  (forall a, o = Ok a -> Q a s n) -> (forall c, o = Err c -> c = 3 \/ c = 7) -> (forall q, o <> Panic q) ->
   wp (slift o s) n Q.
 Proof.
   intros H1 H2 H3. destruct o; cbn; auto. exfalso. eapply H3; reflexivity.
